@@ -280,13 +280,17 @@ Definition ANselect (s : lstate) (index type : Z) : lstate * Z :=
       else (s1, FAILV)
   end.
 
+(** the ANentry field a statement reads (which one is regenerated from the source: 0 annref, 1 elmtag, 2 elmref, 3 ann_id) *)
+Definition efield (f : Z) (e : entry) : Z :=
+  if f =? 0 then e_annref e else if f =? 1 then e_elmtag e else if f =? 2 then e_elmref e else e_id e.
+
 Definition ANget_tagref (s : lstate) (index type : Z) : lstate * option (Z * Z) :=
   match need_tree s type with
   | (s1, None) => (s1, None)
   | (s1, Some t) =>
       if truth (ANget_tagref_index_ok index (l_num s1 type))
       then match tindex (index + 1) t, zassoc type ANget_tagref_tag_switch with
-           | Some e, Some g => (s1, Some (g, e_annref e))
+           | Some e, Some g => (s1, Some (g, efield ANget_tagref_ref_field e))
            | _, _ => (s1, None)
            end
       else (s1, None)
@@ -418,28 +422,56 @@ Definition DFANIaddfann (s : lstate) (kind : Z) (text : list Z) : lstate * bool 
 
 (** DFANIgetfannlen / DFANIgetfann: one step of the enumeration of file labels / descriptions *)
 Definition fann_tag (kind : Z) : Z := if kind =? DFAN_LABEL then DFTAG_FID else DFTAG_FD.
-Definition fann_lookup (s : lstate) (kind : Z) (isfirst : bool) : option dd :=
-  if isfirst then hd_error (of_tag (fann_tag kind) (l_dds s)) else hfind (fann_tag kind) (l_nextf s kind) (l_dds s).
+(** Next_label_ref / Next_desc_ref and No_more_labels / No_more_descs are the cells DFAN_LABEL / DFAN_DESC of [l_nextf] /
+    [l_nomore]; WHICH cell a statement reads or writes, when an enumeration restarts, and the start ref handed to
+    Hstartread (0 = wildcard = the first one) are the conditions regenerated from dfan.c (the FLEN_ and FGET_ definitions). *)
+Definition sel (c : Z) : Z := if truth c then DFAN_LABEL else DFAN_DESC.
+Definition b2z (b : bool) : Z := if b then 1 else 0.
+Definition fann_find (tag start : Z) (dds : list dd) : option dd :=
+  if start =? 0 then hd_error (of_tag tag dds) else hfind tag start dds.
+
 Definition DFANIgetfannlen (s : lstate) (kind : Z) (isfirst : bool) : lstate * Z :=
-  let s0 := if isfirst then set_enum s kind (l_nextf s kind) false else s in
-  if negb isfirst && l_nomore s0 kind then (s0, FAILV) else
-  match fann_lookup s0 kind isfirst with
+  let isf := b2z isfirst in
+  let kr := sel (FLEN_restart_label kind) in
+  let s0 := if truth (FLEN_restart isf) then set_enum s kr (l_nextf s kr) false else s in
+  if negb (truth (FLEN_restart isf)) &&
+     truth (FLEN_exhausted kind (b2z (l_nomore s0 DFAN_LABEL)) (b2z (l_nomore s0 DFAN_DESC))) then (s0, FAILV) else
+  let lab := truth (FLEN_type_label kind) in
+  let tag := if lab then DFTAG_FID else DFTAG_FD in
+  let start := if lab then FLEN_start_label isf (l_nextf s0 DFAN_LABEL) else FLEN_start_desc isf (l_nextf s0 DFAN_DESC) in
+  match fann_find tag start (l_dds s0) with
   | None => (s0, FAILV)
-  | Some d => (set_lastref (set_enum s0 kind (d_ref d) (l_nomore s0 kind)) (d_ref d), zlen (d_data d))
+  | Some d => let kw := sel (FLEN_write_label kind) in
+              (set_lastref (set_enum s0 kw (d_ref d) (l_nomore s0 kw)) (d_ref d), zlen (d_data d))
   end.
-(** with maxlen = length + 1 (what the harness passes) the whole annotation is delivered *)
+
+(** the cursor part of DFANIgetfann: the annotation read and the state afterwards *)
 Definition DFANIgetfann (s : lstate) (kind : Z) (isfirst : bool) : lstate * option (list Z) :=
-  let s0 := if isfirst then set_enum s kind (l_nextf s kind) false else s in
-  if negb isfirst && l_nomore s0 kind then (s0, None) else
-  match fann_lookup s0 kind isfirst with
+  let isf := b2z isfirst in
+  let kr := sel (FGET_restart_label kind) in
+  let s0 := if truth (FGET_restart isf) then set_enum s kr (l_nextf s kr) false else s in
+  if negb (truth (FGET_restart isf)) &&
+     truth (FGET_exhausted kind (b2z (l_nomore s0 DFAN_LABEL)) (b2z (l_nomore s0 DFAN_DESC))) then (s0, None) else
+  let lab := truth (FGET_type_label kind) in
+  let tag := if lab then DFTAG_FID else DFTAG_FD in
+  let start := if lab then FGET_start_label isf (l_nextf s0 DFAN_LABEL) else FGET_start_desc isf (l_nextf s0 DFAN_DESC) in
+  match fann_find tag start (l_dds s0) with
   | None => (s0, None)
   | Some d =>
-      let s1 := match dd_after (d_ref d) (of_tag (fann_tag kind) (l_dds s0)) with
-                | None => set_enum s0 kind (l_nextf s0 kind) true
-                | Some d' => set_enum s0 kind (d_ref d') (l_nomore s0 kind)
+      let s1 := match dd_after (d_ref d) (of_tag tag (l_dds s0)) with
+                | None => let ke := sel (FGET_end_label kind) in set_enum s0 ke (l_nextf s0 ke) true
+                | Some d' => let kn := sel (FGET_next_label kind) in set_enum s0 kn (d_ref d') (l_nomore s0 kn)
                 end in
       (set_lastref s1 (d_ref d), Some (d_data d))
   end.
+
+(** the buffer part: at most maxlen bytes are read, the terminator goes to min(length, maxlen - 1); returns that length *)
+Definition fann_deliver (t : list Z) (maxlen : Z) : Z * list Z :=
+  let len1 := FGET_clip (zlen t) maxlen in
+  let buf1 := if 0 <? len1 then poke (repeat FILL (Z.to_nat maxlen)) (firstn (Z.to_nat len1) t) else repeat FILL (Z.to_nat maxlen) in
+  let len2 := if truth (FGET_trunc len1 maxlen) then maxlen - 1 else len1 in
+  (len2, poke_at buf1 len2 0).
+
 (** the harness loop: getfannlen(first), getfann(first), then with isfirst = 0 until getfannlen fails *)
 Fixpoint enum_fann (fuel : nat) (s : lstate) (kind : Z) (isfirst : bool) : lstate * option (list (list Z)) :=
   match fuel with
@@ -583,7 +615,9 @@ Definition mstep (h : hstate) (o : op) : hstate * mres :=
 Definition m_gettagref (h : hstate) (type idx : Z) : hstate * mres :=
   if negb (h_sess h) then (h, MFail) else
   match ANget_tagref (h_lib h) idx type with
-  | (l1, Some (g, r)) => (hlib h l1, MOk [g; r] [])
+  | (l1, Some (g, r)) =>
+      let '(l2, id) := ANselect l1 idx type in
+      (hlib h l2, match ANid2tagref l2 id with Some (g2, r2) => MOk [g; r; g2; r2] [] | None => MOk [g; r; -1; -1] [] end)
   | (l1, None) => (hlib h l1, MFail)
   end.
 
@@ -632,3 +666,20 @@ Definition gstep (g : gstate) (o : op) : gstate * mres :=
 Definition g_gettagref (g : gstate) (type idx : Z) : gstate * mres :=
   let '(h2, r) := m_gettagref (g_files g (g_cur g)) type idx in
   (mkg (upd (g_files g) (g_cur g) h2) (g_names g) (g_cur g) (g_stat g) (g_lastfile g), r).
+
+(** DFANgetfidlen / DFANgetfdslen and DFANgetfid / DFANgetfds called one at a time (they take a file id: no DFANIopen) *)
+Definition g_fann_len (g : gstate) (kind : Z) (isfirst : bool) : gstate * mres :=
+  let h := g_files g (g_cur g) in
+  if h_sess h then (g, MNoModel) else
+  let '(l1, n) := DFANIgetfannlen (with_stat (h_lib h) (g_stat g)) kind isfirst in
+  (mkg (upd (g_files g) (g_cur g) (hlib h l1)) (g_names g) (g_cur g) (stat_of l1) (g_lastfile g),
+   if n <? 0 then MFail else MOk [n; l_lastref l1] []).
+Definition g_fann_get (g : gstate) (kind : Z) (isfirst : bool) (maxlen : Z) : gstate * mres :=
+  let h := g_files g (g_cur g) in
+  if h_sess h then (g, MNoModel) else
+  match DFANIgetfann (with_stat (h_lib h) (g_stat g)) kind isfirst with
+  | (l1, None) => (mkg (upd (g_files g) (g_cur g) (hlib h l1)) (g_names g) (g_cur g) (stat_of l1) (g_lastfile g), MFail)
+  | (l1, Some t) => let '(n, buf) := fann_deliver t maxlen in
+                    (mkg (upd (g_files g) (g_cur g) (hlib h l1)) (g_names g) (g_cur g) (stat_of l1) (g_lastfile g),
+                     MOk [n; l_lastref l1] [buf])
+  end.
